@@ -15,7 +15,7 @@ CHECKS = {
    technique="explicit-state lock-step exploration of the product of the three automata plus replay of grammar-derived sentences on the implementation",
    design="3/C19"),
  "C08": dict(
-   text="All short lexeme strings in 10 grammar contexts through every DSL and module entry point (accepted texts continue through printer and both graph builders), JSON and YAML token strings and JSON value replacements through their entry points, every single and pair of protobuf degradations (nil/empty/dropped/renamed parts) through printer, plain graph and weighted builder: no panic, result xor error, unlexable characters outside comments always rejected; work measured as deterministic instrumented step counts from a cold parser: horizon 5e7 steps and growth exponent <= 2.5 between n and 2n repetitions of every short fragment in every insertion context, for nested pumping (open^n inner close^n), and - against the wire size of the model - for scaled model families through printer and both graph builders (fixed shapes, deep operator trees, and every cell family: n levels of two relations over a 9 x 8 menu of level-to-level rewrites, open or closed into one tuple cycle), the weighted builder additionally from every start node of its depth-first weight assignment.",
+   text="All short lexeme strings in 10 grammar contexts through every DSL and module entry point (accepted texts continue through printer and both graph builders), JSON and YAML token strings and JSON value replacements through their entry points, every single and pair of protobuf degradations (nil/empty/dropped/renamed parts) through printer, plain graph and weighted builder: no panic, result xor error, unlexable characters outside comments always rejected; work measured as deterministic instrumented step counts from a cold parser: horizon 5e7 steps and growth exponent <= 2.5 between n and 2n repetitions of every short fragment in every insertion context, for nested pumping (open^n inner close^n), and - against the wire size of the model - for scaled model families through printer and both graph builders (fixed shapes, deep operator trees, and every cell family: n levels of two relations over a 9 x 8 menu of level-to-level rewrites, open or closed into one tuple cycle), the weighted builder additionally from every start node of its depth-first weight assignment. Round 8 additions: 24 representative raw byte sequences (control characters, every kind of invalid UTF-8, BOM, Unicode separators, astral characters) at every byte offset of 13 documents (pairs at every third offset), in a JSON model and a manifest, and pumped; on every enumerated text the module merger must agree with the single-file parser (an unreadable file makes the merge fail, nothing a readable file declares is lost); a fifth base model with every kind of restriction as first and only entry of its list (this exposed genuine defect F16, fixed).",
    note="Step counts come from build-time instrumentation of repository, antlr runtime, generated parser and yaml.v3; asymptotics judged at n=32/64 (fragments), depth 16/32 (nesting) and 8..64 levels (families) only; known findings F11 (form feed runs, fragment signature) and F14 (cubic weight assignment on chains of diamonds closed into a tuple cycle, family + exponent-interval signature) are the only suppressions.",
    technique="bounded exhaustive enumeration of inputs and fault combinations with panic guard and deterministic step-count horizon",
    design="3/C08"),
@@ -65,7 +65,7 @@ CHECKS = {
    technique="exhaustive exploration of map-iteration schedules and input permutations with a differential oracle",
    design="3/C12"),
  "C16": dict(
-   text="(bounds) every string of <= 3/4 lexemes appended to 10 valid document prefixes: every syntax error lies inside the input; (exact) every listener-level injection at every site x layouts: the error stands on the offending name according to the renderer's source map; (merge) every conflict-carrying file set plus look-alike sets x file orders x layout styles: File and Line are those of a conflicting declaration.",
+   text="(bounds) every string of <= 3/4 lexemes appended to 10 valid document prefixes: every syntax error lies inside the input; (exact) every listener-level injection at every site x layouts: the error stands on the offending name according to the renderer's source map; (merge) every conflict-carrying file set plus look-alike sets x file orders x layout styles: File and Line are those of a conflicting declaration. The look-alike sets are systematic: the conflicting name continued or preceded by every character an extended identifier may hold, before and after the conflict, and the name in other roles.",
    note="Positions are read from the public Error() text / exported fields; lines split on \\n, columns in code points; merge error columns are not claimed by the property.",
    technique="bounded exhaustive enumeration of texts and injections x layouts with a source-map oracle",
    design="3/C16"),
@@ -90,7 +90,7 @@ CHECKS = {
    technique="bounded exhaustive enumeration of rewrite trees against a reference predicate and normal form",
    design="3/C02"),
  "C03": dict(
-   text="Models x all renderings within a layout-deviation budget (every single deviation at every optional layout element of the combined lexer+parser grammar, pairs on tiny models, every uniform style) are parsed by both DSL entry points and compared with the model that was written (independent AST -> protobuf reference).",
+   text="Models x all renderings within a layout-deviation budget (every single deviation at every optional layout element of the combined lexer+parser grammar, pairs on tiny models, every uniform style) are parsed by both DSL entry points and compared with the model that was written (independent AST -> protobuf reference). Grammar-level comments (tab-indented, reaching the generated multiLineComment rule) at every site where the grammar allows them, twin names (case, natural order, separators) in every name position.",
    note="Layout sites are those of the two .g4 files enumerated in the renderer; constructs the combined grammar does not permit (NEWLINE between condition parameters, tab-indented comment lines) are never generated.",
    technique="deviation-bounded exhaustive exploration of layout choice points against a reference renderer/AST",
    design="3/C03"),
